@@ -121,8 +121,33 @@ def prog_loops_waiting_to_be_enabled(rng):
     return prog, scripts, "loops-waiting-to-be-enabled"
 
 
+def prog_loop_waiting_for_items(rng):
+    """A loop whose items come from a never-ending step; next to `success` there is an output fed by the loop's failure report."""
+    h = gen.plugin_step("h", Expr(In("tag")))
+    loop = Step("loop", "foreach", sub=gen.sub_program("sub.yaml", 1), items=[{"tag": gen.tagref("h")}, {"tag": "k"}], parallelism=rng.choice([1, 2]))
+    steps = [h, loop]
+    rng.shuffle(steps)
+    prog = Program(steps, {"success": {"d": Expr(Ref("loop", "outputs", "success", "data"))}, "failure": {"e": Expr(Ref("loop", "failed", "error"))}}, gen.BASE_INPUT)
+    scripts = gen.make_scripts(steps, {})
+    scripts["h"]["exec"] = {"outcome": "hang", "on_cancel": rng.choice(["error", "ignore"])}
+    return prog, scripts, "loop-waiting-for-items"
+
+
+def prog_deploy_waits(rng):
+    """A step whose deployment configuration comes from a never-ending step; outputs for its result and for its deployment failure."""
+    h = gen.plugin_step("h", Expr(In("tag")))
+    x = gen.plugin_step("X", Expr(In("tag")), deploy={"deployer_name": "scripted", "tag": gen.tagref("h")})
+    q = gen.plugin_step("q", Expr(In("tag")))
+    steps = [h, x, q]
+    rng.shuffle(steps)
+    prog = Program(steps, {"done": {"x": gen.tagref("X")}, "undeployed": {"e": Expr(Ref("X", "deploy_failed", "error", "error")), "q": gen.tagref("q")}}, gen.BASE_INPUT)
+    scripts = gen.make_scripts(steps, {})
+    scripts["h"]["exec"] = {"outcome": "hang", "on_cancel": rng.choice(["error", "success"])}
+    return prog, scripts, "deployment-configuration-from-never-ending-step"
+
+
 NEVER_ENDING = [lambda rng: prog_chain_hang(rng, "obey"), lambda rng: prog_chain_hang(rng, "ignore"), lambda rng: prog_chain_hang(rng, "nohandler"),
-                lambda rng: prog_chain_hang(rng, "success"), prog_parallel_hang, prog_deploy_blocks, prog_foreach_hang, prog_late_result, prog_foreach_partial, prog_parallel_hang_many]
+                lambda rng: prog_chain_hang(rng, "success"), prog_parallel_hang, prog_deploy_blocks, prog_foreach_hang, prog_late_result, prog_foreach_partial, prog_parallel_hang_many, prog_loop_waiting_for_items, prog_deploy_waits]
 FINISHING = ["chain", "diamond", "fan_in", "wait_for", "deploy_expr", "enabled", "foreach", "foreach_after", "random_dag"]
 
 
